@@ -68,7 +68,43 @@ SIBLINGS = [
 ]
 
 
+# one scope reads the same relation twice (names in ONE scope must differ: A != B, and differ from X)
+SAME_SCOPE = [
+    ("insert into s1.tgt with {X} as (select a1, id from s1.ta) select {A}.a1 as xa, {B}.a1 as yb from {X} {A} join {X} {B} on {A}.id = {B}.id",
+     {("s1.ta.a1", "s1.tgt.xa"), ("s1.ta.a1", "s1.tgt.yb")}),
+    ("insert into s1.tgt with {X} as (select a1, id from s1.ta) select {X}.a1 as xa, {B}.a1 as yb from {X} join {X} {B} on {X}.id = {B}.id",
+     {("s1.ta.a1", "s1.tgt.xa"), ("s1.ta.a1", "s1.tgt.yb")}),
+    ("insert into s1.tgt select {A}.a1 as xa, {B}.a2 as yb from s1.ta {A} join s1.ta {B} on {A}.id = {B}.id",
+     {("s1.ta.a1", "s1.tgt.xa"), ("s1.ta.a2", "s1.tgt.yb")}),
+]
+# set operations whose branches re-read the same relation under the same exposed name (or under none)
+BRANCHES = [
+    ("insert into s1.tgt select {X}.a1 as xa from s1.ta {X} union all select {Y}.b1 from s1.tb {Y} union all select {X}.a2 from s1.ta {X}",
+     {("s1.ta.a1", "s1.tgt.xa"), ("s1.tb.b1", "s1.tgt.xa"), ("s1.ta.a2", "s1.tgt.xa")}),
+    ("insert into s1.tgt select {X}.a1 as xa from s1.ta {X} union all select {X}.a2 from s1.ta {X}",
+     {("s1.ta.a1", "s1.tgt.xa"), ("s1.ta.a2", "s1.tgt.xa")}),
+    ("insert into s1.tgt with {X} as (select a1, a2 from s1.ta) select {X}.a1 as xa from {X} union all select b1 from s1.tb union all select {X}.a2 from {X}",
+     {("s1.ta.a1", "s1.tgt.xa"), ("s1.tb.b1", "s1.tgt.xa"), ("s1.ta.a2", "s1.tgt.xa")}),
+]
+NOALIAS = [
+    ("insert into s1.tgt select ta.a1 as xa from s1.ta union all select tb.b1 from s1.tb union all select ta.a2 from s1.ta",
+     {("s1.ta.a1", "s1.tgt.xa"), ("s1.tb.b1", "s1.tgt.xa"), ("s1.ta.a2", "s1.tgt.xa")}),
+    ("insert into s1.tgt select a1 as xa from s1.ta union all select a2 from s1.ta",
+     {("s1.ta.a1", "s1.tgt.xa"), ("s1.ta.a2", "s1.tgt.xa")}),
+]
+
+
 def sibling_cases(pool):
+    for k, (tpl, exp) in enumerate(SAME_SCOPE):
+        for x in ("c", "q1", "tb", "Cte"):
+            for a, b in itertools.permutations(["c1", "c2", "i", "tb", "Q"], 2):
+                if len({x.lower(), a.lower(), b.lower()}) == 3:
+                    yield f"samescope{k}/X={x},A={a},B={b}", tpl.format(X=x, A=a, B=b), exp
+    for k, (tpl, exp) in enumerate(BRANCHES):
+        for x, y in itertools.permutations(["x", "y", "q1", "tb", "Xy"], 2):
+            yield f"branches{k}/X={x},Y={y}", tpl.format(X=x, Y=y), exp
+    for k, (tpl, exp) in enumerate(NOALIAS):
+        yield f"noalias{k}", tpl, exp
     for k, (tpl, exp) in enumerate(SIBLINGS):
         for x, y in itertools.permutations(["x", "y", "q1", "tb"], 2):
             for a, b in itertools.product(["i", "j", "sq", x if k != 2 else "sq"], repeat=2):
